@@ -16,6 +16,7 @@ import numpy as np
 
 from .. import gen, ref
 from . import _c02_layouts as lay
+from ._c01_defaults import defaults_case
 
 ID = "C02"
 LEVEL = "exploration"
@@ -36,7 +37,9 @@ RULE = (
     "per vector component), damping None or 10^[-8,2], forces at the data or at a separate set of ceil(n/4)..n points, Poisson ratio in [-1,1], "
     "mindist 0 or small (Spline) / >0 (VectorSpline2D); MAGNITUDE classes: all weights times 1e-15, 1e-12, 1e-9, 1e-6, 1, 1e6, 1e12 (stream wmag: every "
     "estimator configuration x every magnitude, undamped ones also against the fit with the unscaled weights) and all data times 1e-15..1e15; undamped "
-    "fits with fewer forces than data and non-uniform weights are counted as their own class; LARGE_JACOBIAN stream: Spline with 20001 / 20011 / 20483 data and ~510 separate forces, VectorSpline2D with ~7000 data and ~365 forces "
+    "fits with fewer forces than data and non-uniform weights are counted as their own class; DEFAULTS stream: Spline / VectorSpline2D / Trend built with NO optional arguments and fitted without the weights argument against "
+    "the documented defaults spelled out (get_params() and bit-identical predictions; the monitors read constructor parameters from the instance); "
+    "LARGE_JACOBIAN stream: Spline with 20001 / 20011 / 20483 data and ~510 separate forces, VectorSpline2D with ~7000 data and ~365 forces "
     "(more than 1e7 design-matrix elements), the last 1-11 data rows carrying large weights and off-field values; CONCURRENT stream: two to four "
     "Trend / Spline / VectorSpline2D fit+predict sequences running at the same time in threads (core.run_threads) on problems of the same "
     "(n_data, n_forces) shape but different coordinates, data and weights - big ones (n_data*n_forces > 2e5, 2 rounds) and small ones (30-45 rounds, with GIL hand-offs injected at random statement starts of the verde sources) - "
@@ -80,8 +83,8 @@ ASSUMPTIONS = [
     "n_1d_arrays document via np.ravel); the reference takes np.asarray(arg).ravel() of every argument",
 ]
 FLOORS = {
-    "quick": {'eval:optimality': 2880, 'eval:prediction_agreement': 4504, 'eval:weight_scale_invariance': 126, 'eval:vanishing_weight': 96, 'fit:trend': 450, 'fit:spline': 480, 'fit:vspline': 300, 'informative_undamped_kappa_ge_1e6': 140, 'distinct_nontrivial': 1200, 'layout:weights:2d_fortran': 50, 'layout:weights:2d_transposed_view': 50, 'layout:weights:2d_strided': 55, 'layout:weights:2d_negative_stride': 55, 'layout:weights:2d_readonly_fortran': 50, 'layout:weights:1d_series': 80, 'layout:data:2d_fortran': 65, 'layout:data:2d_transposed_view': 65, 'layout:data:2d_strided': 75, 'layout:data:1d_series': 95, 'layout:coordinates:2d_fortran': 120, 'layout:coordinates:2d_transposed_view': 110, 'layout:coordinates:1d_series': 160, 'layout:force_coords:2d_fortran': 10, 'layout:weights_laid_out_differently_from_data': 540, 'class:undamped_fewer_forces_than_data_nonuniform_weights:spline': 159, 'class:undamped_fewer_forces_than_data_nonuniform_weights:vspline': 135, 'data_magnitude:1e+00': 497, 'data_magnitude:1e+03': 48, 'data_magnitude:1e+06': 46, 'data_magnitude:1e+09': 40, 'data_magnitude:1e+12': 40, 'data_magnitude:1e+15': 42, 'data_magnitude:1e-03': 36, 'data_magnitude:1e-06': 42, 'data_magnitude:1e-09': 39, 'data_magnitude:1e-12': 35, 'data_magnitude:1e-15': 38, 'weight_magnitude:1e+00': 324, 'weight_magnitude:1e+06': 38, 'weight_magnitude:1e+12': 36, 'weight_magnitude:1e-06': 28, 'weight_magnitude:1e-09': 38, 'weight_magnitude:1e-12': 37, 'weight_magnitude:1e-15': 34, 'weight_magnitude_class:spline_damped:1e+00': 2, 'weight_magnitude_class:spline_damped:1e+06': 2, 'weight_magnitude_class:spline_damped:1e+12': 2, 'weight_magnitude_class:spline_damped:1e-06': 2, 'weight_magnitude_class:spline_damped:1e-09': 2, 'weight_magnitude_class:spline_damped:1e-12': 2, 'weight_magnitude_class:spline_damped:1e-15': 2, 'weight_magnitude_class:spline_damped_fewer_forces:1e+00': 2, 'weight_magnitude_class:spline_damped_fewer_forces:1e+06': 2, 'weight_magnitude_class:spline_damped_fewer_forces:1e+12': 2, 'weight_magnitude_class:spline_damped_fewer_forces:1e-06': 2, 'weight_magnitude_class:spline_damped_fewer_forces:1e-09': 2, 'weight_magnitude_class:spline_damped_fewer_forces:1e-12': 2, 'weight_magnitude_class:spline_damped_fewer_forces:1e-15': 2, 'weight_magnitude_class:spline_undamped_fewer_forces:1e+00': 2, 'weight_magnitude_class:spline_undamped_fewer_forces:1e+06': 2, 'weight_magnitude_class:spline_undamped_fewer_forces:1e+12': 2, 'weight_magnitude_class:spline_undamped_fewer_forces:1e-06': 2, 'weight_magnitude_class:spline_undamped_fewer_forces:1e-09': 2, 'weight_magnitude_class:spline_undamped_fewer_forces:1e-12': 2, 'weight_magnitude_class:spline_undamped_fewer_forces:1e-15': 2, 'weight_magnitude_class:trend:1e+00': 2, 'weight_magnitude_class:trend:1e+06': 2, 'weight_magnitude_class:trend:1e+12': 2, 'weight_magnitude_class:trend:1e-06': 2, 'weight_magnitude_class:trend:1e-09': 2, 'weight_magnitude_class:trend:1e-12': 2, 'weight_magnitude_class:trend:1e-15': 2, 'weight_magnitude_class:vspline_damped:1e+00': 2, 'weight_magnitude_class:vspline_damped:1e+06': 2, 'weight_magnitude_class:vspline_damped:1e+12': 2, 'weight_magnitude_class:vspline_damped:1e-06': 2, 'weight_magnitude_class:vspline_damped:1e-09': 2, 'weight_magnitude_class:vspline_damped:1e-12': 2, 'weight_magnitude_class:vspline_damped:1e-15': 2, 'weight_magnitude_class:vspline_undamped_fewer_forces:1e+00': 2, 'weight_magnitude_class:vspline_undamped_fewer_forces:1e+06': 2, 'weight_magnitude_class:vspline_undamped_fewer_forces:1e+12': 2, 'weight_magnitude_class:vspline_undamped_fewer_forces:1e-06': 2, 'weight_magnitude_class:vspline_undamped_fewer_forces:1e-09': 2, 'weight_magnitude_class:vspline_undamped_fewer_forces:1e-12': 2, 'weight_magnitude_class:vspline_undamped_fewer_forces:1e-15': 2, 'weight_scale_invariance:magnitude:1e+06': 5, 'weight_scale_invariance:magnitude:1e+12': 5, 'weight_scale_invariance:magnitude:1e-06': 6, 'weight_scale_invariance:magnitude:1e-09': 5, 'weight_scale_invariance:magnitude:1e-12': 5, 'weight_scale_invariance:magnitude:1e-15': 5, 'history:error_then_fit:spline': 4, 'history:error_then_fit:trend': 4, 'history:error_then_fit:vspline': 4, 'history:reconfigure_after_use:spline': 4, 'history:reconfigure_after_use:trend': 4, 'history:reconfigure_after_use:vspline': 4, 'history:reconfigure_before_use:spline': 4, 'history:reconfigure_before_use:trend': 4, 'history:reconfigure_before_use:vspline': 4, 'history:reconfigure_held_in_chain:spline': 4, 'history:reconfigure_held_in_chain:trend': 4, 'history:reconfigure_held_in_chain:vspline': 4, 'history:refit_after_resetting_forces:spline': 4, 'history:refit_after_resetting_forces:vspline': 4, 'history:refit_after_use:spline': 4, 'history:refit_after_use:trend': 9, 'history:refit_after_use:vspline': 4, 'history:refit_directly:spline': 4, 'history:refit_directly:trend': 4, 'history:refit_directly:vspline': 4, 'history:refit_same_arrays_new_contents:spline': 4, 'history:refit_same_arrays_new_contents:trend': 4, 'history:refit_same_arrays_new_contents:vspline': 4, 'history:size_change:equal': 15, 'history:size_change:larger': 13, 'history:size_change:smaller': 14, 'history:trend_degree_down': 5, 'history:trend_degree_up': 5, 'history:use:filter': 5, 'history:use:grid': 6, 'history:use:jacobian': 5, 'history:use:nothing': 4, 'history:use:predict_data': 8, 'history:use:predict_elsewhere': 7, 'history:use:score': 6, 'history:via_attribute_assignment': 16, 'history:via_set_params': 15, 'fit_raised:vspline:ValueError': 4, 'eval:equivalent_spelling': 72, 'forces:spline:at_data': 104, 'forces:spline:data_points_in_another_order': 21, 'forces:spline:grid': 104, 'forces:spline:moved_subset': 102, 'forces:vspline:at_data': 53, 'forces:vspline:data_points_in_another_order': 10, 'forces:vspline:grid': 58, 'forces:vspline:moved_subset': 42, 'spelling:spline_damping:float32(0.5)': 1, 'spelling:spline_damping:float32(8.0)': 1, 'spelling:spline_damping:float64(0.25)': 1, 'spelling:spline_damping:int(1.0)': 1, 'spelling:spline_damping:int(10.0)': 1, 'spelling:spline_damping:int(100.0)': 1, 'spelling:spline_damping:int32(1.0)': 1, 'spelling:spline_damping:int64(10.0)': 1, 'spelling:spline_damping:ndarray(10.0)': 1, 'spelling:spline_damping:ndarray(3.0)': 1, 'spelling:spline_mindist:0-d array': 2, 'spelling:spline_mindist:int': 3, 'spelling:spline_mindist:np.float32': 2, 'spelling:spline_mindist:np.int64': 3, 'spelling:trend_degree:int32': 3, 'spelling:trend_degree:int64': 3, 'spelling:trend_degree:ndarray': 2, 'spelling:trend_degree:uint8': 2, 'spelling:vspline_damping:float32(0.5)': 1, 'spelling:vspline_damping:float32(8.0)': 1, 'spelling:vspline_damping:float64(0.25)': 1, 'spelling:vspline_damping:int(1.0)': 1, 'spelling:vspline_damping:int(10.0)': 1, 'spelling:vspline_damping:int(100.0)': 1, 'spelling:vspline_damping:int32(1.0)': 1, 'spelling:vspline_damping:int64(10.0)': 1, 'spelling:vspline_damping:ndarray(10.0)': 1, 'spelling:vspline_damping:ndarray(3.0)': 1, 'spelling:vspline_mindist:0-d array': 2, 'spelling:vspline_mindist:int': 3, 'spelling:vspline_mindist:np.float32': 2, 'spelling:vspline_mindist:np.int64': 3, 'spelling:vspline_poisson:float32(0.5)': 1, 'spelling:vspline_poisson:int(-1.0)': 1, 'spelling:vspline_poisson:int(0.0)': 1, 'spelling:vspline_poisson:int(1.0)': 1, 'spelling:vspline_poisson:int64(0.0)': 1, 'spelling:vspline_poisson:int64(1.0)': 1, 'spelling:vspline_poisson:ndarray(-1.0)': 1, 'spelling:vspline_poisson:ndarray(0.25)': 1, 'eval:force_layout': 368, 'duplicates:spline': 40, 'duplicates:spline:informative': 32, 'duplicates:vspline': 20, 'duplicates:vspline:informative': 19, 'force_layout:data_with_repeated_locations:spline': 40, 'force_layout:data_with_repeated_locations:vspline': 20, 'concurrent_fits:spline': 277, 'concurrent_fits:trend': 240, 'concurrent_fits:vspline': 546, 'large_jacobian:spline': 1, 'large_jacobian:vspline': 1, 'yields_injected': 61980, 'concurrent:with_yield_injection': 8, 'concurrent:without_yield_injection': 2},
-    "thorough": {'eval:optimality': 54007, 'eval:prediction_agreement': 84465, 'eval:weight_scale_invariance': 2370, 'eval:vanishing_weight': 1800, 'fit:trend': 11250, 'fit:spline': 12000, 'fit:vspline': 7500, 'informative_undamped_kappa_ge_1e6': 3500, 'distinct_nontrivial': 30000, 'layout:weights:2d_fortran': 1250, 'layout:weights:2d_transposed_view': 1250, 'layout:weights:2d_strided': 1375, 'layout:weights:2d_negative_stride': 1375, 'layout:weights:2d_readonly_fortran': 1250, 'layout:weights:1d_series': 2000, 'layout:data:2d_fortran': 1625, 'layout:data:2d_transposed_view': 1625, 'layout:data:2d_strided': 1875, 'layout:data:1d_series': 2375, 'layout:coordinates:2d_fortran': 3000, 'layout:coordinates:2d_transposed_view': 2750, 'layout:coordinates:1d_series': 4000, 'layout:force_coords:2d_fortran': 250, 'layout:weights_laid_out_differently_from_data': 13500, 'class:undamped_fewer_forces_than_data_nonuniform_weights:spline': 3577, 'class:undamped_fewer_forces_than_data_nonuniform_weights:vspline': 3037, 'data_magnitude:1e+00': 11182, 'data_magnitude:1e+03': 1080, 'data_magnitude:1e+06': 1035, 'data_magnitude:1e+09': 900, 'data_magnitude:1e+12': 900, 'data_magnitude:1e+15': 945, 'data_magnitude:1e-03': 810, 'data_magnitude:1e-06': 945, 'data_magnitude:1e-09': 877, 'data_magnitude:1e-12': 787, 'data_magnitude:1e-15': 855, 'weight_magnitude:1e+00': 7290, 'weight_magnitude:1e+06': 855, 'weight_magnitude:1e+12': 810, 'weight_magnitude:1e-06': 630, 'weight_magnitude:1e-09': 855, 'weight_magnitude:1e-12': 832, 'weight_magnitude:1e-15': 765, 'weight_magnitude_class:spline_damped:1e+00': 45, 'weight_magnitude_class:spline_damped:1e+06': 45, 'weight_magnitude_class:spline_damped:1e+12': 45, 'weight_magnitude_class:spline_damped:1e-06': 45, 'weight_magnitude_class:spline_damped:1e-09': 45, 'weight_magnitude_class:spline_damped:1e-12': 45, 'weight_magnitude_class:spline_damped:1e-15': 45, 'weight_magnitude_class:spline_damped_fewer_forces:1e+00': 45, 'weight_magnitude_class:spline_damped_fewer_forces:1e+06': 45, 'weight_magnitude_class:spline_damped_fewer_forces:1e+12': 45, 'weight_magnitude_class:spline_damped_fewer_forces:1e-06': 45, 'weight_magnitude_class:spline_damped_fewer_forces:1e-09': 45, 'weight_magnitude_class:spline_damped_fewer_forces:1e-12': 45, 'weight_magnitude_class:spline_damped_fewer_forces:1e-15': 45, 'weight_magnitude_class:spline_undamped_fewer_forces:1e+00': 45, 'weight_magnitude_class:spline_undamped_fewer_forces:1e+06': 45, 'weight_magnitude_class:spline_undamped_fewer_forces:1e+12': 45, 'weight_magnitude_class:spline_undamped_fewer_forces:1e-06': 45, 'weight_magnitude_class:spline_undamped_fewer_forces:1e-09': 45, 'weight_magnitude_class:spline_undamped_fewer_forces:1e-12': 45, 'weight_magnitude_class:spline_undamped_fewer_forces:1e-15': 45, 'weight_magnitude_class:trend:1e+00': 45, 'weight_magnitude_class:trend:1e+06': 45, 'weight_magnitude_class:trend:1e+12': 45, 'weight_magnitude_class:trend:1e-06': 45, 'weight_magnitude_class:trend:1e-09': 45, 'weight_magnitude_class:trend:1e-12': 45, 'weight_magnitude_class:trend:1e-15': 45, 'weight_magnitude_class:vspline_damped:1e+00': 45, 'weight_magnitude_class:vspline_damped:1e+06': 45, 'weight_magnitude_class:vspline_damped:1e+12': 45, 'weight_magnitude_class:vspline_damped:1e-06': 45, 'weight_magnitude_class:vspline_damped:1e-09': 45, 'weight_magnitude_class:vspline_damped:1e-12': 45, 'weight_magnitude_class:vspline_damped:1e-15': 45, 'weight_magnitude_class:vspline_undamped_fewer_forces:1e+00': 45, 'weight_magnitude_class:vspline_undamped_fewer_forces:1e+06': 45, 'weight_magnitude_class:vspline_undamped_fewer_forces:1e+12': 45, 'weight_magnitude_class:vspline_undamped_fewer_forces:1e-06': 45, 'weight_magnitude_class:vspline_undamped_fewer_forces:1e-09': 45, 'weight_magnitude_class:vspline_undamped_fewer_forces:1e-12': 45, 'weight_magnitude_class:vspline_undamped_fewer_forces:1e-15': 45, 'weight_scale_invariance:magnitude:1e+06': 112, 'weight_scale_invariance:magnitude:1e+12': 112, 'weight_scale_invariance:magnitude:1e-06': 135, 'weight_scale_invariance:magnitude:1e-09': 112, 'weight_scale_invariance:magnitude:1e-12': 112, 'weight_scale_invariance:magnitude:1e-15': 112, 'history:error_then_fit:spline': 80, 'history:error_then_fit:trend': 80, 'history:error_then_fit:vspline': 80, 'history:reconfigure_after_use:spline': 80, 'history:reconfigure_after_use:trend': 80, 'history:reconfigure_after_use:vspline': 80, 'history:reconfigure_before_use:spline': 80, 'history:reconfigure_before_use:trend': 80, 'history:reconfigure_before_use:vspline': 80, 'history:reconfigure_held_in_chain:spline': 80, 'history:reconfigure_held_in_chain:trend': 80, 'history:reconfigure_held_in_chain:vspline': 80, 'history:refit_after_resetting_forces:spline': 80, 'history:refit_after_resetting_forces:vspline': 80, 'history:refit_after_use:spline': 80, 'history:refit_after_use:trend': 180, 'history:refit_after_use:vspline': 80, 'history:refit_directly:spline': 80, 'history:refit_directly:trend': 80, 'history:refit_directly:vspline': 80, 'history:refit_same_arrays_new_contents:spline': 80, 'history:refit_same_arrays_new_contents:trend': 80, 'history:refit_same_arrays_new_contents:vspline': 80, 'history:size_change:equal': 337, 'history:size_change:larger': 303, 'history:size_change:smaller': 330, 'history:trend_degree_down': 128, 'history:trend_degree_up': 114, 'history:use:filter': 114, 'history:use:grid': 135, 'history:use:jacobian': 114, 'history:use:nothing': 108, 'history:use:predict_data': 189, 'history:use:predict_elsewhere': 168, 'history:use:score': 141, 'history:via_attribute_assignment': 378, 'history:via_set_params': 351, 'fit_raised:vspline:ValueError': 80, 'eval:equivalent_spelling': 1350, 'forces:spline:at_data': 2080, 'forces:spline:data_points_in_another_order': 420, 'forces:spline:grid': 2080, 'forces:spline:moved_subset': 2040, 'forces:vspline:at_data': 1060, 'forces:vspline:data_points_in_another_order': 200, 'forces:vspline:grid': 1160, 'forces:vspline:moved_subset': 840, 'spelling:spline_damping:float32(0.5)': 20, 'spelling:spline_damping:float32(8.0)': 20, 'spelling:spline_damping:float64(0.25)': 20, 'spelling:spline_damping:int(1.0)': 20, 'spelling:spline_damping:int(10.0)': 20, 'spelling:spline_damping:int(100.0)': 20, 'spelling:spline_damping:int32(1.0)': 20, 'spelling:spline_damping:int64(10.0)': 20, 'spelling:spline_damping:ndarray(10.0)': 20, 'spelling:spline_damping:ndarray(3.0)': 20, 'spelling:spline_mindist:0-d array': 40, 'spelling:spline_mindist:int': 60, 'spelling:spline_mindist:np.float32': 40, 'spelling:spline_mindist:np.int64': 60, 'spelling:trend_degree:int32': 60, 'spelling:trend_degree:int64': 60, 'spelling:trend_degree:ndarray': 40, 'spelling:trend_degree:uint8': 40, 'spelling:vspline_damping:float32(0.5)': 20, 'spelling:vspline_damping:float32(8.0)': 20, 'spelling:vspline_damping:float64(0.25)': 20, 'spelling:vspline_damping:int(1.0)': 20, 'spelling:vspline_damping:int(10.0)': 20, 'spelling:vspline_damping:int(100.0)': 20, 'spelling:vspline_damping:int32(1.0)': 20, 'spelling:vspline_damping:int64(10.0)': 20, 'spelling:vspline_damping:ndarray(10.0)': 20, 'spelling:vspline_damping:ndarray(3.0)': 20, 'spelling:vspline_mindist:0-d array': 40, 'spelling:vspline_mindist:int': 60, 'spelling:vspline_mindist:np.float32': 40, 'spelling:vspline_mindist:np.int64': 60, 'spelling:vspline_poisson:float32(0.5)': 20, 'spelling:vspline_poisson:int(-1.0)': 20, 'spelling:vspline_poisson:int(0.0)': 20, 'spelling:vspline_poisson:int(1.0)': 20, 'spelling:vspline_poisson:int64(0.0)': 20, 'spelling:vspline_poisson:int64(1.0)': 20, 'spelling:vspline_poisson:ndarray(-1.0)': 20, 'spelling:vspline_poisson:ndarray(0.25)': 20, 'eval:force_layout': 6914, 'duplicates:spline': 900, 'duplicates:spline:informative': 720, 'duplicates:vspline': 450, 'duplicates:vspline:informative': 427, 'force_layout:data_with_repeated_locations:spline': 900, 'force_layout:data_with_repeated_locations:vspline': 450, 'concurrent_fits:spline': 3539, 'concurrent_fits:trend': 3070, 'concurrent_fits:vspline': 6971, 'large_jacobian:spline': 6, 'large_jacobian:spline:damped': 2, 'large_jacobian:vspline': 6, 'large_jacobian:vspline:damped': 2, 'large_jacobian:spline:undamped': 2, 'large_jacobian:vspline:undamped': 2, 'yields_injected': 1053675, 'concurrent:with_yield_injection': 140, 'concurrent:without_yield_injection': 24},
+    "quick": {'eval:optimality': 2880, 'eval:prediction_agreement': 4504, 'eval:weight_scale_invariance': 126, 'eval:vanishing_weight': 96, 'fit:trend': 450, 'fit:spline': 480, 'fit:vspline': 300, 'informative_undamped_kappa_ge_1e6': 140, 'distinct_nontrivial': 1200, 'layout:weights:2d_fortran': 50, 'layout:weights:2d_transposed_view': 50, 'layout:weights:2d_strided': 55, 'layout:weights:2d_negative_stride': 55, 'layout:weights:2d_readonly_fortran': 50, 'layout:weights:1d_series': 80, 'layout:data:2d_fortran': 65, 'layout:data:2d_transposed_view': 65, 'layout:data:2d_strided': 75, 'layout:data:1d_series': 95, 'layout:coordinates:2d_fortran': 120, 'layout:coordinates:2d_transposed_view': 110, 'layout:coordinates:1d_series': 160, 'layout:force_coords:2d_fortran': 10, 'layout:weights_laid_out_differently_from_data': 540, 'class:undamped_fewer_forces_than_data_nonuniform_weights:spline': 159, 'class:undamped_fewer_forces_than_data_nonuniform_weights:vspline': 135, 'data_magnitude:1e+00': 497, 'data_magnitude:1e+03': 48, 'data_magnitude:1e+06': 46, 'data_magnitude:1e+09': 40, 'data_magnitude:1e+12': 40, 'data_magnitude:1e+15': 42, 'data_magnitude:1e-03': 36, 'data_magnitude:1e-06': 42, 'data_magnitude:1e-09': 39, 'data_magnitude:1e-12': 35, 'data_magnitude:1e-15': 38, 'weight_magnitude:1e+00': 324, 'weight_magnitude:1e+06': 38, 'weight_magnitude:1e+12': 36, 'weight_magnitude:1e-06': 28, 'weight_magnitude:1e-09': 38, 'weight_magnitude:1e-12': 37, 'weight_magnitude:1e-15': 34, 'weight_magnitude_class:spline_damped:1e+00': 2, 'weight_magnitude_class:spline_damped:1e+06': 2, 'weight_magnitude_class:spline_damped:1e+12': 2, 'weight_magnitude_class:spline_damped:1e-06': 2, 'weight_magnitude_class:spline_damped:1e-09': 2, 'weight_magnitude_class:spline_damped:1e-12': 2, 'weight_magnitude_class:spline_damped:1e-15': 2, 'weight_magnitude_class:spline_damped_fewer_forces:1e+00': 2, 'weight_magnitude_class:spline_damped_fewer_forces:1e+06': 2, 'weight_magnitude_class:spline_damped_fewer_forces:1e+12': 2, 'weight_magnitude_class:spline_damped_fewer_forces:1e-06': 2, 'weight_magnitude_class:spline_damped_fewer_forces:1e-09': 2, 'weight_magnitude_class:spline_damped_fewer_forces:1e-12': 2, 'weight_magnitude_class:spline_damped_fewer_forces:1e-15': 2, 'weight_magnitude_class:spline_undamped_fewer_forces:1e+00': 2, 'weight_magnitude_class:spline_undamped_fewer_forces:1e+06': 2, 'weight_magnitude_class:spline_undamped_fewer_forces:1e+12': 2, 'weight_magnitude_class:spline_undamped_fewer_forces:1e-06': 2, 'weight_magnitude_class:spline_undamped_fewer_forces:1e-09': 2, 'weight_magnitude_class:spline_undamped_fewer_forces:1e-12': 2, 'weight_magnitude_class:spline_undamped_fewer_forces:1e-15': 2, 'weight_magnitude_class:trend:1e+00': 2, 'weight_magnitude_class:trend:1e+06': 2, 'weight_magnitude_class:trend:1e+12': 2, 'weight_magnitude_class:trend:1e-06': 2, 'weight_magnitude_class:trend:1e-09': 2, 'weight_magnitude_class:trend:1e-12': 2, 'weight_magnitude_class:trend:1e-15': 2, 'weight_magnitude_class:vspline_damped:1e+00': 2, 'weight_magnitude_class:vspline_damped:1e+06': 2, 'weight_magnitude_class:vspline_damped:1e+12': 2, 'weight_magnitude_class:vspline_damped:1e-06': 2, 'weight_magnitude_class:vspline_damped:1e-09': 2, 'weight_magnitude_class:vspline_damped:1e-12': 2, 'weight_magnitude_class:vspline_damped:1e-15': 2, 'weight_magnitude_class:vspline_undamped_fewer_forces:1e+00': 2, 'weight_magnitude_class:vspline_undamped_fewer_forces:1e+06': 2, 'weight_magnitude_class:vspline_undamped_fewer_forces:1e+12': 2, 'weight_magnitude_class:vspline_undamped_fewer_forces:1e-06': 2, 'weight_magnitude_class:vspline_undamped_fewer_forces:1e-09': 2, 'weight_magnitude_class:vspline_undamped_fewer_forces:1e-12': 2, 'weight_magnitude_class:vspline_undamped_fewer_forces:1e-15': 2, 'weight_scale_invariance:magnitude:1e+06': 5, 'weight_scale_invariance:magnitude:1e+12': 5, 'weight_scale_invariance:magnitude:1e-06': 6, 'weight_scale_invariance:magnitude:1e-09': 5, 'weight_scale_invariance:magnitude:1e-12': 5, 'weight_scale_invariance:magnitude:1e-15': 5, 'history:error_then_fit:spline': 4, 'history:error_then_fit:trend': 4, 'history:error_then_fit:vspline': 4, 'history:reconfigure_after_use:spline': 4, 'history:reconfigure_after_use:trend': 4, 'history:reconfigure_after_use:vspline': 4, 'history:reconfigure_before_use:spline': 4, 'history:reconfigure_before_use:trend': 4, 'history:reconfigure_before_use:vspline': 4, 'history:reconfigure_held_in_chain:spline': 4, 'history:reconfigure_held_in_chain:trend': 4, 'history:reconfigure_held_in_chain:vspline': 4, 'history:refit_after_resetting_forces:spline': 4, 'history:refit_after_resetting_forces:vspline': 4, 'history:refit_after_use:spline': 4, 'history:refit_after_use:trend': 9, 'history:refit_after_use:vspline': 4, 'history:refit_directly:spline': 4, 'history:refit_directly:trend': 4, 'history:refit_directly:vspline': 4, 'history:refit_same_arrays_new_contents:spline': 4, 'history:refit_same_arrays_new_contents:trend': 4, 'history:refit_same_arrays_new_contents:vspline': 4, 'history:size_change:equal': 15, 'history:size_change:larger': 13, 'history:size_change:smaller': 14, 'history:trend_degree_down': 5, 'history:trend_degree_up': 5, 'history:use:filter': 5, 'history:use:grid': 6, 'history:use:jacobian': 5, 'history:use:nothing': 4, 'history:use:predict_data': 8, 'history:use:predict_elsewhere': 7, 'history:use:score': 6, 'history:via_attribute_assignment': 16, 'history:via_set_params': 15, 'fit_raised:vspline:ValueError': 4, 'eval:equivalent_spelling': 72, 'forces:spline:at_data': 104, 'forces:spline:data_points_in_another_order': 21, 'forces:spline:grid': 104, 'forces:spline:moved_subset': 102, 'forces:vspline:at_data': 53, 'forces:vspline:data_points_in_another_order': 10, 'forces:vspline:grid': 58, 'forces:vspline:moved_subset': 42, 'spelling:spline_damping:float32(0.5)': 1, 'spelling:spline_damping:float32(8.0)': 1, 'spelling:spline_damping:float64(0.25)': 1, 'spelling:spline_damping:int(1.0)': 1, 'spelling:spline_damping:int(10.0)': 1, 'spelling:spline_damping:int(100.0)': 1, 'spelling:spline_damping:int32(1.0)': 1, 'spelling:spline_damping:int64(10.0)': 1, 'spelling:spline_damping:ndarray(10.0)': 1, 'spelling:spline_damping:ndarray(3.0)': 1, 'spelling:spline_mindist:0-d array': 2, 'spelling:spline_mindist:int': 3, 'spelling:spline_mindist:np.float32': 2, 'spelling:spline_mindist:np.int64': 3, 'spelling:trend_degree:int32': 3, 'spelling:trend_degree:int64': 3, 'spelling:trend_degree:ndarray': 2, 'spelling:trend_degree:uint8': 2, 'spelling:vspline_damping:float32(0.5)': 1, 'spelling:vspline_damping:float32(8.0)': 1, 'spelling:vspline_damping:float64(0.25)': 1, 'spelling:vspline_damping:int(1.0)': 1, 'spelling:vspline_damping:int(10.0)': 1, 'spelling:vspline_damping:int(100.0)': 1, 'spelling:vspline_damping:int32(1.0)': 1, 'spelling:vspline_damping:int64(10.0)': 1, 'spelling:vspline_damping:ndarray(10.0)': 1, 'spelling:vspline_damping:ndarray(3.0)': 1, 'spelling:vspline_mindist:0-d array': 2, 'spelling:vspline_mindist:int': 3, 'spelling:vspline_mindist:np.float32': 2, 'spelling:vspline_mindist:np.int64': 3, 'spelling:vspline_poisson:float32(0.5)': 1, 'spelling:vspline_poisson:int(-1.0)': 1, 'spelling:vspline_poisson:int(0.0)': 1, 'spelling:vspline_poisson:int(1.0)': 1, 'spelling:vspline_poisson:int64(0.0)': 1, 'spelling:vspline_poisson:int64(1.0)': 1, 'spelling:vspline_poisson:ndarray(-1.0)': 1, 'spelling:vspline_poisson:ndarray(0.25)': 1, 'eval:force_layout': 368, 'duplicates:spline': 40, 'duplicates:spline:informative': 32, 'duplicates:vspline': 20, 'duplicates:vspline:informative': 19, 'force_layout:data_with_repeated_locations:spline': 40, 'force_layout:data_with_repeated_locations:vspline': 20, 'concurrent_fits:spline': 277, 'concurrent_fits:trend': 240, 'concurrent_fits:vspline': 546, 'large_jacobian:spline': 1, 'large_jacobian:vspline': 1, 'yields_injected': 61980, 'concurrent:with_yield_injection': 8, 'concurrent:without_yield_injection': 2, 'defaults:Spline': 2, 'defaults:VectorSpline2D': 2, 'defaults:Trend': 2, 'eval:documented_defaults': 7},
+    "thorough": {'eval:optimality': 54007, 'eval:prediction_agreement': 84465, 'eval:weight_scale_invariance': 2370, 'eval:vanishing_weight': 1800, 'fit:trend': 11250, 'fit:spline': 12000, 'fit:vspline': 7500, 'informative_undamped_kappa_ge_1e6': 3500, 'distinct_nontrivial': 30000, 'layout:weights:2d_fortran': 1250, 'layout:weights:2d_transposed_view': 1250, 'layout:weights:2d_strided': 1375, 'layout:weights:2d_negative_stride': 1375, 'layout:weights:2d_readonly_fortran': 1250, 'layout:weights:1d_series': 2000, 'layout:data:2d_fortran': 1625, 'layout:data:2d_transposed_view': 1625, 'layout:data:2d_strided': 1875, 'layout:data:1d_series': 2375, 'layout:coordinates:2d_fortran': 3000, 'layout:coordinates:2d_transposed_view': 2750, 'layout:coordinates:1d_series': 4000, 'layout:force_coords:2d_fortran': 250, 'layout:weights_laid_out_differently_from_data': 13500, 'class:undamped_fewer_forces_than_data_nonuniform_weights:spline': 3577, 'class:undamped_fewer_forces_than_data_nonuniform_weights:vspline': 3037, 'data_magnitude:1e+00': 11182, 'data_magnitude:1e+03': 1080, 'data_magnitude:1e+06': 1035, 'data_magnitude:1e+09': 900, 'data_magnitude:1e+12': 900, 'data_magnitude:1e+15': 945, 'data_magnitude:1e-03': 810, 'data_magnitude:1e-06': 945, 'data_magnitude:1e-09': 877, 'data_magnitude:1e-12': 787, 'data_magnitude:1e-15': 855, 'weight_magnitude:1e+00': 7290, 'weight_magnitude:1e+06': 855, 'weight_magnitude:1e+12': 810, 'weight_magnitude:1e-06': 630, 'weight_magnitude:1e-09': 855, 'weight_magnitude:1e-12': 832, 'weight_magnitude:1e-15': 765, 'weight_magnitude_class:spline_damped:1e+00': 45, 'weight_magnitude_class:spline_damped:1e+06': 45, 'weight_magnitude_class:spline_damped:1e+12': 45, 'weight_magnitude_class:spline_damped:1e-06': 45, 'weight_magnitude_class:spline_damped:1e-09': 45, 'weight_magnitude_class:spline_damped:1e-12': 45, 'weight_magnitude_class:spline_damped:1e-15': 45, 'weight_magnitude_class:spline_damped_fewer_forces:1e+00': 45, 'weight_magnitude_class:spline_damped_fewer_forces:1e+06': 45, 'weight_magnitude_class:spline_damped_fewer_forces:1e+12': 45, 'weight_magnitude_class:spline_damped_fewer_forces:1e-06': 45, 'weight_magnitude_class:spline_damped_fewer_forces:1e-09': 45, 'weight_magnitude_class:spline_damped_fewer_forces:1e-12': 45, 'weight_magnitude_class:spline_damped_fewer_forces:1e-15': 45, 'weight_magnitude_class:spline_undamped_fewer_forces:1e+00': 45, 'weight_magnitude_class:spline_undamped_fewer_forces:1e+06': 45, 'weight_magnitude_class:spline_undamped_fewer_forces:1e+12': 45, 'weight_magnitude_class:spline_undamped_fewer_forces:1e-06': 45, 'weight_magnitude_class:spline_undamped_fewer_forces:1e-09': 45, 'weight_magnitude_class:spline_undamped_fewer_forces:1e-12': 45, 'weight_magnitude_class:spline_undamped_fewer_forces:1e-15': 45, 'weight_magnitude_class:trend:1e+00': 45, 'weight_magnitude_class:trend:1e+06': 45, 'weight_magnitude_class:trend:1e+12': 45, 'weight_magnitude_class:trend:1e-06': 45, 'weight_magnitude_class:trend:1e-09': 45, 'weight_magnitude_class:trend:1e-12': 45, 'weight_magnitude_class:trend:1e-15': 45, 'weight_magnitude_class:vspline_damped:1e+00': 45, 'weight_magnitude_class:vspline_damped:1e+06': 45, 'weight_magnitude_class:vspline_damped:1e+12': 45, 'weight_magnitude_class:vspline_damped:1e-06': 45, 'weight_magnitude_class:vspline_damped:1e-09': 45, 'weight_magnitude_class:vspline_damped:1e-12': 45, 'weight_magnitude_class:vspline_damped:1e-15': 45, 'weight_magnitude_class:vspline_undamped_fewer_forces:1e+00': 45, 'weight_magnitude_class:vspline_undamped_fewer_forces:1e+06': 45, 'weight_magnitude_class:vspline_undamped_fewer_forces:1e+12': 45, 'weight_magnitude_class:vspline_undamped_fewer_forces:1e-06': 45, 'weight_magnitude_class:vspline_undamped_fewer_forces:1e-09': 45, 'weight_magnitude_class:vspline_undamped_fewer_forces:1e-12': 45, 'weight_magnitude_class:vspline_undamped_fewer_forces:1e-15': 45, 'weight_scale_invariance:magnitude:1e+06': 112, 'weight_scale_invariance:magnitude:1e+12': 112, 'weight_scale_invariance:magnitude:1e-06': 135, 'weight_scale_invariance:magnitude:1e-09': 112, 'weight_scale_invariance:magnitude:1e-12': 112, 'weight_scale_invariance:magnitude:1e-15': 112, 'history:error_then_fit:spline': 80, 'history:error_then_fit:trend': 80, 'history:error_then_fit:vspline': 80, 'history:reconfigure_after_use:spline': 80, 'history:reconfigure_after_use:trend': 80, 'history:reconfigure_after_use:vspline': 80, 'history:reconfigure_before_use:spline': 80, 'history:reconfigure_before_use:trend': 80, 'history:reconfigure_before_use:vspline': 80, 'history:reconfigure_held_in_chain:spline': 80, 'history:reconfigure_held_in_chain:trend': 80, 'history:reconfigure_held_in_chain:vspline': 80, 'history:refit_after_resetting_forces:spline': 80, 'history:refit_after_resetting_forces:vspline': 80, 'history:refit_after_use:spline': 80, 'history:refit_after_use:trend': 180, 'history:refit_after_use:vspline': 80, 'history:refit_directly:spline': 80, 'history:refit_directly:trend': 80, 'history:refit_directly:vspline': 80, 'history:refit_same_arrays_new_contents:spline': 80, 'history:refit_same_arrays_new_contents:trend': 80, 'history:refit_same_arrays_new_contents:vspline': 80, 'history:size_change:equal': 337, 'history:size_change:larger': 303, 'history:size_change:smaller': 330, 'history:trend_degree_down': 128, 'history:trend_degree_up': 114, 'history:use:filter': 114, 'history:use:grid': 135, 'history:use:jacobian': 114, 'history:use:nothing': 108, 'history:use:predict_data': 189, 'history:use:predict_elsewhere': 168, 'history:use:score': 141, 'history:via_attribute_assignment': 378, 'history:via_set_params': 351, 'fit_raised:vspline:ValueError': 80, 'eval:equivalent_spelling': 1350, 'forces:spline:at_data': 2080, 'forces:spline:data_points_in_another_order': 420, 'forces:spline:grid': 2080, 'forces:spline:moved_subset': 2040, 'forces:vspline:at_data': 1060, 'forces:vspline:data_points_in_another_order': 200, 'forces:vspline:grid': 1160, 'forces:vspline:moved_subset': 840, 'spelling:spline_damping:float32(0.5)': 20, 'spelling:spline_damping:float32(8.0)': 20, 'spelling:spline_damping:float64(0.25)': 20, 'spelling:spline_damping:int(1.0)': 20, 'spelling:spline_damping:int(10.0)': 20, 'spelling:spline_damping:int(100.0)': 20, 'spelling:spline_damping:int32(1.0)': 20, 'spelling:spline_damping:int64(10.0)': 20, 'spelling:spline_damping:ndarray(10.0)': 20, 'spelling:spline_damping:ndarray(3.0)': 20, 'spelling:spline_mindist:0-d array': 40, 'spelling:spline_mindist:int': 60, 'spelling:spline_mindist:np.float32': 40, 'spelling:spline_mindist:np.int64': 60, 'spelling:trend_degree:int32': 60, 'spelling:trend_degree:int64': 60, 'spelling:trend_degree:ndarray': 40, 'spelling:trend_degree:uint8': 40, 'spelling:vspline_damping:float32(0.5)': 20, 'spelling:vspline_damping:float32(8.0)': 20, 'spelling:vspline_damping:float64(0.25)': 20, 'spelling:vspline_damping:int(1.0)': 20, 'spelling:vspline_damping:int(10.0)': 20, 'spelling:vspline_damping:int(100.0)': 20, 'spelling:vspline_damping:int32(1.0)': 20, 'spelling:vspline_damping:int64(10.0)': 20, 'spelling:vspline_damping:ndarray(10.0)': 20, 'spelling:vspline_damping:ndarray(3.0)': 20, 'spelling:vspline_mindist:0-d array': 40, 'spelling:vspline_mindist:int': 60, 'spelling:vspline_mindist:np.float32': 40, 'spelling:vspline_mindist:np.int64': 60, 'spelling:vspline_poisson:float32(0.5)': 20, 'spelling:vspline_poisson:int(-1.0)': 20, 'spelling:vspline_poisson:int(0.0)': 20, 'spelling:vspline_poisson:int(1.0)': 20, 'spelling:vspline_poisson:int64(0.0)': 20, 'spelling:vspline_poisson:int64(1.0)': 20, 'spelling:vspline_poisson:ndarray(-1.0)': 20, 'spelling:vspline_poisson:ndarray(0.25)': 20, 'eval:force_layout': 6914, 'duplicates:spline': 900, 'duplicates:spline:informative': 720, 'duplicates:vspline': 450, 'duplicates:vspline:informative': 427, 'force_layout:data_with_repeated_locations:spline': 900, 'force_layout:data_with_repeated_locations:vspline': 450, 'concurrent_fits:spline': 3539, 'concurrent_fits:trend': 3070, 'concurrent_fits:vspline': 6971, 'large_jacobian:spline': 6, 'large_jacobian:spline:damped': 2, 'large_jacobian:vspline': 6, 'large_jacobian:vspline:damped': 2, 'large_jacobian:spline:undamped': 2, 'large_jacobian:vspline:undamped': 2, 'yields_injected': 1053675, 'concurrent:with_yield_injection': 140, 'concurrent:without_yield_injection': 24, 'defaults:Spline': 24, 'defaults:VectorSpline2D': 24, 'defaults:Trend': 24, 'eval:documented_defaults': 72},
 }
 JOBS = {"quick": 1, "thorough": 16}
 CASE_TIMEOUT_S = 300
@@ -89,8 +92,8 @@ CASE_TIMEOUT_S = 300
 
 def plan(tier):
     if tier == "quick":
-        return collections.OrderedDict(trend=600, spline=700, vspline=280, wscale=240, vanish=240, wmag=210, history=288, spellings=180, duplicates=150, large_jacobian=2, concurrent=24)
-    return collections.OrderedDict(trend=15000, spline=17500, vspline=7000, wscale=6000, vanish=6000, wmag=5250, history=7200, spellings=4500, duplicates=3750, large_jacobian=32, concurrent=420)
+        return collections.OrderedDict(trend=600, spline=700, vspline=280, wscale=240, vanish=240, wmag=210, history=288, spellings=180, duplicates=150, large_jacobian=2, concurrent=24, defaults=18)
+    return collections.OrderedDict(trend=15000, spline=17500, vspline=7000, wscale=6000, vanish=6000, wmag=5250, history=7200, spellings=4500, duplicates=3750, large_jacobian=32, concurrent=420, defaults=180)
 
 
 # ----------------------------------------------------------------------
@@ -396,9 +399,9 @@ def install(tap, run):
             run.observe_max("err_over_tol:%s:%s:kappa_1e%02d" % (kind, tag, dec), err / tol)
             run.observe_max("err_over_tol:%s:%s" % (kind, tag), err / tol)
 
-    tap.method(verde.Trend, "fit", post=post_trend_fit)
-    tap.method(verde.Spline, "fit", post=post_spline_fit)
-    tap.method(verde.VectorSpline2D, "fit", post=post_vspline_fit, pre=pre_vspline_fit)
+    tap.method(verde.Trend, "fit", post=post_trend_fit, documented={"weights": None})
+    tap.method(verde.Spline, "fit", post=post_spline_fit, documented={"weights": None})
+    tap.method(verde.VectorSpline2D, "fit", post=post_vspline_fit, pre=pre_vspline_fit, documented={"weights": None})
     tap.method(verde.Trend, "predict", post=post_predict)
     tap.method(verde.Spline, "predict", post=post_predict)
     tap.method(verde.VectorSpline2D, "predict", post=post_predict)
@@ -1204,6 +1207,8 @@ def run_case(run, tap, stream, index, rng):
         _history(run, rng, verde, index)
     elif stream == "spellings":
         _spellings(run, rng, verde, index)
+    elif stream == "defaults":
+        defaults_case(run, rng, verde, index, ("Spline", "VectorSpline2D", "Trend"))
     elif stream == "duplicates":
         _duplicates(run, rng, verde, index)
     elif stream == "large_jacobian":
